@@ -4,7 +4,7 @@ import hashlib
 import os
 import subprocess
 
-from . import common, reports
+from . import common, reports, tree
 from .common import fse
 
 HASH_FNS = ["metro", "xxhash", "blake3", "sha256", "sha512", "sha3-256", "sha3-512"]
@@ -136,8 +136,10 @@ def rf_params(o):
 def file_key(path, o, cache=None):
     """Content key of a file for the reference partition: (len, sha256) of the bytes the
     grouping is defined on (the transform output when --transform is used)."""
-    with open(path, "rb") as f:
-        b = f.read()
+    b = tree.content_token(path)
+    if isinstance(b, tuple):
+        # a huge sparse file (never used together with a transform)
+        return (b[1], "sparse:" + hashlib.sha256(repr(b[2]).encode()).hexdigest())
     if o.get("transform"):
         b = TRANSFORMS[o["transform"]][1](b)
         if b is None:
